@@ -30,6 +30,12 @@ func c01Justify(h *hSys, o *hObs) string {
 			return fmt.Sprintf("env-failure kind=%s method=%s fault=%s", c.Kind, c.Method, c.Fault)
 		}
 	}
+	if o.RedisFailed {
+		return "env-failure kind=redis-command"
+	}
+	if abs := w.AbsTimeout(); abs > 0 && !o.PreBorn.IsZero() && o.Now.After(o.PreBorn.Add(abs)) {
+		return "session-past-its-absolute-timeout"
+	}
 	t := o.PreGhost.Tokens
 	// (ii) renewed by a successful refresh exchange during this very check
 	for _, tr := range o.TokenReqs {
@@ -119,13 +125,19 @@ func summarizeCalls(cs []world.EnvCall) []string {
 	return out
 }
 
+// c01LoginPrefix is a completed login (the non-initial start state of the expiry specs).
+var c01LoginPrefix = []seqx.Event{
+	{Kind: "req", Req: &world.Req{Path: "/app"}},
+	{Kind: "req", Req: &world.Req{Path: "/callback?code={code#0}&state={state#0}", Cookie: "#0"}},
+}
+
 func c01Opts(tier string, spec world.Spec) hOpts {
 	bad := []world.Answer{
 		{Name: "http500", Status: 500},
 		{Name: "evil-foreign-key", Evil: "foreign-same-kid"},
 		{Name: "not-bearer", TokenType: "mac"},
 	}
-	o := hOpts{Spec: spec, MaxDev: 1, Faults: true, BadIdP: bad, Logout: true, Attacker: true, Advance: true,
+	o := hOpts{Spec: spec, MaxDev: 1, Faults: true, RedisFaults: spec.Store == "redis", BadIdP: bad, Logout: true, Attacker: true, Advance: true,
 		GoodIdP: []world.Answer{world.Honest, {Name: "honest-no-refresh", NoRefresh: true}}, MaxSessions: 3}
 	if tier == "thorough" {
 		o.MaxDev = 2
@@ -134,6 +146,12 @@ func c01Opts(tier string, spec world.Spec) hOpts {
 		o.GoodIdP = append(o.GoodIdP, world.Answer{Name: "honest-no-expires-in", NoExpiresIn: true},
 			world.Answer{Name: "honest-refresh-omits-id-token", NoIDToken: true, KeepRT: true})
 		o.MaxSessions = 4
+	}
+	if spec.Abs > 0 {
+		o.Prefix = c01LoginPrefix
+		o.MaxSessions = 2
+		o.RedisFaults = false
+		o.BadIdP = o.BadIdP[:1]
 	}
 	return o
 }
@@ -155,17 +173,24 @@ func c01Run(run *ev.Run) {
 		{Store: "memory", Forward: true, Logout: true},
 		{Store: "redis", Forward: true, Logout: true},
 		{Store: "memory", Forward: false, Logout: true},
+		// expired sessions: absolute time-out of 900 s with tokens that live 600 s, starting from a completed login
+		{Store: "memory", Forward: true, Logout: true, Abs: 900, TokenLife: 600},
+		{Store: "redis", Forward: true, Logout: true, Abs: 900, TokenLife: 600},
 	} {
 		if spec.Store == "memory" && !spec.Forward && run.Tier != "thorough" {
 			continue
 		}
 		o := c01Opts(run.Tier, spec)
+
 		if run.Tier == "thorough" {
 			// pass 1: depth 6 with single deviations; pass 2 (below): depth 4 with pairs of deviations
 			o.MaxDev, o.Pairs = 1, false
 		}
 		m := o.model(c01Monitor(run, spec))
 		m.MaxDepth = depth
+		if run.Tier == "thorough" {
+			m.CheckMerges = -1 // depth 6 fills the time budget; the merge check runs in the quick tier and in the pairs pass
+		}
 		st := seqx.Explore(run, m)
 		if run.Tier == "thorough" {
 			o2 := c01Opts(run.Tier, spec)
